@@ -25,7 +25,9 @@ import (
 	"fmt"
 	"io"
 	"math/big"
+	"net"
 	"os"
+	"sort"
 	"strings"
 	"sync"
 	"testing"
@@ -1196,7 +1198,9 @@ func (n *c18Node) close() {
 	go func() {
 		defer c18Closing.Done()
 		time.Sleep(1500 * time.Millisecond)
-		n.ln.Close()
+		if n.ln != nil {
+			n.ln.Close()
+		}
 		n.tr.Close()
 		n.cm.Close()
 	}()
@@ -1250,6 +1254,9 @@ func c18StepNode(cl *clock.Mock, n *c18Node, d time.Duration) {
 			break
 		}
 		cl.Set(fireAt)
+		if m.ctx.Err() != nil {
+			break // the manager has been closed: no rollover will come, nothing to wait for
+		}
 		for j := 0; j < 2000; j++ {
 			m.mx.RLock()
 			changed := m.currentConfig != before
@@ -1356,6 +1363,398 @@ func c18ListenerTimeline(out *verifh.Out, r *verifh.Rand, maxOps int) {
 	out.Case(line)
 }
 
+
+// ---- transport lifecycle histories ---------------------------------------------------
+//
+// Operations on ONE real transport between the observations of a kind-5 timeline: Listens that fail
+// (in the QUIC layer: UDP port in use, own port already served; before it: refused address), the
+// observed listener closed and another Listen later (the certificate manager, created once per
+// transport, runs on with no listener open, also across rollover points), a further listener on the
+// same transport.  They are written into the case as lifecycle tokens `5 code dt` (dt = offset into
+// the following advance); model and monitor skip them: the manager's state is a function of its start
+// instant and the clock alone, which is exactly what conformance then checks at every observation,
+// and the property's clauses are judged at every observation as in any other listener timeline.
+
+const (
+	c18LcBusyPort = 1 // Listen on a UDP port that is in use: fails in the QUIC layer
+	c18LcBadAddr  = 2 // Listen on an address the transport refuses (no /webtransport, or with a /certhash)
+	c18LcClose    = 3 // the observed listener is closed
+	c18LcListen   = 4 // Listen succeeds; this listener is the one observed from now on
+	c18LcExtra    = 5 // a further listener on the same transport; the next observation goes through it
+	c18LcOwnPort  = 6 // Listen on the port its own open listener serves: fails in the QUIC layer
+)
+
+type c18Lc struct {
+	code int64
+	dt   time.Duration
+}
+
+func c18NewNode(key ic.PrivKey, cl *clock.Mock) *c18Node {
+	cm, err := quicreuse.NewConnManager(quic.StatelessResetKey{}, quic.TokenGeneratorKey{})
+	if err != nil {
+		panic(err)
+	}
+	trI, err := New(key, nil, cm, nil, &network.NullResourceManager{}, WithClock(cl))
+	if err != nil {
+		panic(err)
+	}
+	return &c18Node{cm, trI.(*transport), nil}
+}
+
+func (n *c18Node) listen() tpt.Listener {
+	ln, err := n.tr.Listen(ma.StringCast("/ip4/127.0.0.1/udp/0/quic-v1/webtransport"))
+	if err != nil {
+		panic(err)
+	}
+	c18Serve(ln)
+	return ln
+}
+
+func c18Serve(ln tpt.Listener) {
+	go func() {
+		for {
+			c, err := ln.Accept()
+			if err != nil {
+				return
+			}
+			c.Close()
+		}
+	}()
+}
+
+// see c18Node.close: a listener is closed only some time after the last handshake made against it
+func c18CloseLater(ln tpt.Listener) {
+	c18Closing.Add(1)
+	go func() {
+		defer c18Closing.Done()
+		time.Sleep(1500 * time.Millisecond)
+		ln.Close()
+	}()
+}
+
+// a Listen that is expected to fail; reports whether it did (if not, the listener is disposed of)
+func (n *c18Node) listenMustFail(out *verifh.Out, addr string, what string) bool {
+	ln, err := n.tr.Listen(ma.StringCast(addr))
+	if err == nil {
+		c18Serve(ln)
+		c18CloseLater(ln)
+		out.Cover("lifecycle.NOT_AS_EXPECTED." + what + "_listen_succeeded")
+		return false
+	}
+	return true
+}
+
+// one lifecycle operation; reports whether it went as its code says
+func (n *c18Node) lifecycle(out *verifh.Out, code int64, variant int) bool {
+	switch code {
+	case c18LcBusyPort:
+		busy, err := net.ListenPacket("udp4", "127.0.0.1:0")
+		if err != nil {
+			return false
+		}
+		defer busy.Close()
+		port := busy.LocalAddr().(*net.UDPAddr).Port
+		return n.listenMustFail(out, fmt.Sprintf("/ip4/127.0.0.1/udp/%d/quic-v1/webtransport", port), "busy_port")
+	case c18LcOwnPort:
+		if n.ln == nil {
+			return false
+		}
+		port := n.ln.Addr().(*net.UDPAddr).Port
+		return n.listenMustFail(out, fmt.Sprintf("/ip4/127.0.0.1/udp/%d/quic-v1/webtransport", port), "own_port")
+	case c18LcBadAddr:
+		if variant%2 == 0 {
+			return n.listenMustFail(out, "/ip4/127.0.0.1/udp/0/quic-v1", "non_webtransport_addr")
+		}
+		d := sha256.Sum256([]byte("c18 lifecycle"))
+		return n.listenMustFail(out, "/ip4/127.0.0.1/udp/0/quic-v1/webtransport"+c18CerthashComp(multihash.SHA2_256, d[:]), "certhash_addr")
+	case c18LcClose:
+		if n.ln == nil {
+			return false
+		}
+		time.Sleep(1500 * time.Millisecond) // see c18Node.close
+		n.ln.Close()
+		n.ln = nil
+		return true
+	case c18LcListen:
+		if n.ln != nil {
+			return false
+		}
+		n.ln = n.listen()
+		return true
+	}
+	return false
+}
+
+type c18LcRun struct {
+	out  *verifh.Out
+	ids  *c18Ids
+	key  ic.PrivKey
+	cl   *clock.Mock
+	n    *c18Node
+	line []int64
+	nops int
+}
+
+// one event of a lifecycle history: kind 0 = first observation, 1 = advance by d, 2 = a new transport
+// (the old one closed), 3 = a second transport with the same key (observed, closed); [ops] are the
+// lifecycle operations on the transport that the event observes, executed before the observation
+// (kind 1: at their offsets into the advance).  Returns the id of the served certificate.
+func (x *c18LcRun) event(kind int64, d time.Duration, ops []c18Lc) int64 {
+	node := x.n
+	switch kind {
+	case 2:
+		x.n.close()
+		x.n = c18NewNode(x.key, x.cl)
+		node = x.n
+	case 3:
+		node = c18NewNode(x.key, x.cl)
+	}
+	cur := time.Duration(0)
+	var extra tpt.Listener
+	for _, op := range ops {
+		if kind == 1 && op.dt > cur && op.dt <= d {
+			c18StepNode(x.cl, node, op.dt-cur)
+			cur = op.dt
+		}
+		ok := true
+		if op.code == c18LcExtra {
+			if extra != nil {
+				continue
+			}
+			extra = node.listen()
+		} else {
+			ok = node.lifecycle(x.out, op.code, x.nops)
+		}
+		x.nops++
+		if ok {
+			x.line = append(x.line, 5, op.code, int64(cur))
+			x.out.Cover(fmt.Sprintf("lifecycle.op_%d", op.code))
+		}
+	}
+	if kind == 1 {
+		c18StepNode(x.cl, node, d-cur)
+	}
+	if node.ln == nil {
+		node.ln = node.listen()
+	}
+	obs := node
+	if extra != nil {
+		obs = &c18Node{node.cm, node.tr, extra}
+	}
+	sn, srv := c18NodeSnap(x.ids, x.cl, obs)
+	x.line = append(x.line, kind)
+	if kind == 1 {
+		x.line = append(x.line, int64(d))
+	}
+	x.line = append(x.line, sn...)
+	if extra != nil {
+		c18CloseLater(extra)
+	}
+	if kind == 3 {
+		node.close()
+	}
+	return srv
+}
+
+func c18LcFails(ops []c18Lc) bool {
+	for _, o := range ops {
+		if o.code == c18LcBusyPort || o.code == c18LcOwnPort {
+			return true
+		}
+	}
+	return false
+}
+
+// Listens that fail, all at one instant (before the first successful Listen of a transport)
+func c18LcFailing(r *verifh.Rand, own bool) []c18Lc {
+	switch r.Intn(6) {
+	case 0:
+		return nil
+	case 1, 2:
+		return []c18Lc{{c18LcBusyPort, 0}}
+	case 3:
+		return []c18Lc{{c18LcBadAddr, 0}, {c18LcBusyPort, 0}}
+	case 4:
+		return []c18Lc{{c18LcBusyPort, 0}, {c18LcBusyPort, 0}}
+	}
+	return []c18Lc{{c18LcBadAddr, 0}}
+}
+
+func c18LifecycleTimeline(out *verifh.Out, r *verifh.Rand, maxOps int) []int64 {
+	key, _, err := ic.GenerateEd25519Key(c18RandReader{r})
+	if err != nil {
+		panic(err)
+	}
+	raw, _ := key.GetPublic().Raw()
+	b0, b1 := raw[0], raw[1]
+	off := c18Offset(b0, b1)
+	period := certValidity - 2*clockSkewAllowance
+	deltas := []time.Duration{0, 1, -1, time.Millisecond, -time.Millisecond, time.Second,
+		time.Duration(r.Uint64() % uint64(period)), time.Duration(r.Uint64() % uint64(period))}
+	k := int64(1 + r.Intn(3000))
+	t0 := int64(off) + k*int64(period) + int64(clockSkewAllowance) + int64(deltas[r.Intn(len(deltas))])
+	for t0 > c18MaxT-20*int64(certValidity) {
+		t0 -= 1000 * int64(period)
+	}
+	cl := clock.NewMock()
+	cl.Set(time.Unix(0, t0))
+	x := &c18LcRun{out: out, ids: newC18Ids(), key: key, cl: cl, line: []int64{5, int64(b0), int64(b1), t0}}
+	x.n = c18NewNode(key, cl)
+	pre := c18LcFailing(r, false)
+	srv := x.event(0, 0, pre)
+	// shadow state: a Listen failed in the QUIC layer and no rollover has been observed since
+	failedPending := c18LcFails(pre)
+	rolls := 0
+	nops := 2 + r.Intn(maxOps)
+	for i := 0; i < nops; i++ {
+		c := r.Intn(100)
+		last := i == nops-1
+		switch {
+		case c < 84 || (last && failedPending):
+			m := x.n.tr.certManager
+			m.mx.RLock()
+			toFire := m.currentConfig.End().Add(-clockSkewAllowance).Sub(cl.Now())
+			m.mx.RUnlock()
+			var d time.Duration
+			switch r.Intn(8) {
+			case 0, 1:
+				d = toFire
+			case 2:
+				d = toFire - 1
+			case 3:
+				d = toFire + deltas[r.Intn(6)]
+			case 4, 5:
+				d = period
+			default:
+				d = time.Duration(r.Uint64() % uint64(period+1))
+			}
+			if last && failedPending {
+				d = period // exactly one rollover point lies in (now, now+period]
+			}
+			if d < 0 {
+				d = 0
+			}
+			if d > period {
+				d = period
+			}
+			if cl.Now().UnixNano()+int64(d) > c18MaxT {
+				d = 0
+			}
+			// an offset into the advance: its ends, around the rollover instant, anywhere
+			pt := func() time.Duration {
+				var v time.Duration
+				switch r.Intn(6) {
+				case 0:
+					v = 0
+				case 1:
+					v = d
+				case 2:
+					v = toFire - 1
+				case 3:
+					v = toFire
+				case 4:
+					v = toFire + 1
+				default:
+					v = time.Duration(r.Uint64() % uint64(d+1))
+				}
+				if v < 0 {
+					v = 0
+				}
+				if v > d {
+					v = d
+				}
+				return v
+			}
+			var ops []c18Lc
+			if !(last && failedPending) {
+				switch r.Intn(12) {
+				case 0, 1:
+				case 2, 3:
+					ops = []c18Lc{{c18LcBusyPort, pt()}}
+				case 4, 5:
+					ops = []c18Lc{{c18LcClose, pt()}, {c18LcListen, pt()}}
+				case 6:
+					ops = []c18Lc{{c18LcClose, pt()}, {c18LcBusyPort, pt()}, {c18LcListen, pt()}}
+				case 7:
+					ops = []c18Lc{{c18LcBadAddr, pt()}}
+				case 8:
+					ops = []c18Lc{{c18LcOwnPort, pt()}}
+				case 9:
+					ops = []c18Lc{{c18LcBusyPort, pt()}, {c18LcOwnPort, pt()}}
+				case 10:
+					ops = []c18Lc{{c18LcExtra, pt()}}
+				default:
+					ops = []c18Lc{{c18LcClose, 0}, {c18LcListen, d}} // no listener open during the whole advance
+				}
+				// offsets ascending, the order of the operations kept
+				dts := make([]time.Duration, len(ops))
+				for j := range ops {
+					dts[j] = ops[j].dt
+				}
+				sort.Slice(dts, func(a, b int) bool { return dts[a] < dts[b] })
+				for j := range ops {
+					ops[j].dt = dts[j]
+				}
+			}
+			s2 := x.event(1, d, ops)
+			if s2 != srv {
+				rolls++
+				out.Cover("lifecycle.rollover_seen_in_handshake")
+				if failedPending {
+					out.Cover("lifecycle.rollover_seen_after_a_listen_that_failed_in_the_quic_layer")
+				}
+				failedPending = false
+				for j := range ops {
+					if ops[j].code == c18LcClose && j+1 < len(ops) && ops[j].dt < toFire && toFire <= ops[len(ops)-1].dt {
+						out.Cover("lifecycle.rollover_point_passed_with_no_listener_open")
+					}
+				}
+			}
+			srv = s2
+			if c18LcFails(ops) {
+				failedPending = true
+			}
+			out.Cover(fmt.Sprintf("lifecycle.handshake_after_%d_rollovers_of_one_transport", min(rolls, 4)))
+		case c < 92:
+			x.event(3, 0, c18LcFailing(r, false))
+			out.Cover("lifecycle.second_transport")
+		default:
+			ops := c18LcFailing(r, false)
+			srv = x.event(2, 0, ops)
+			failedPending = c18LcFails(ops)
+			rolls = 0
+			out.Cover("lifecycle.new_transport")
+		}
+	}
+	x.n.close()
+	out.Cover("lifecycle.timelines")
+	return x.line
+}
+
+// lifecycle histories run side by side (each has its own transport, clock and key; what costs time is
+// waiting before a listener may be closed); the cases are written in the order of their index
+func c18LifecycleTimelines(out *verifh.Out, r *verifh.Rand, n int, maxOps int) {
+	lines := make([][]int64, n)
+	rs := make([]*verifh.Rand, n)
+	for i := range rs {
+		rs[i] = r.Fork()
+	}
+	var wg sync.WaitGroup
+	sem := make(chan struct{}, 8)
+	for i := 0; i < n; i++ {
+		wg.Add(1)
+		go func(i int) {
+			defer wg.Done()
+			sem <- struct{}{}
+			defer func() { <-sem }()
+			lines[i] = c18LifecycleTimeline(out, rs[i], maxOps)
+		}(i)
+	}
+	wg.Wait()
+	for _, l := range lines {
+		out.Case(l)
+	}
+}
 
 // a listener that has been up across TWO rollovers (started two buckets in the past on the mock clock,
 // so that the certificate served now is valid on the wall clock): dials with the addresses its multiaddr
@@ -1507,6 +1906,22 @@ func TestVerifC18(t *testing.T) {
 	for i := 0; i < nListener; i++ {
 		c18ListenerTimeline(out, r.Fork(), 7)
 	}
+	nLife := 32
+	if thorough {
+		nLife = 600
+	}
+	c18LifecycleTimelines(out, r.Fork(), nLife, 6)
+	c18Closing.Wait()
+}
+
+// only the transport lifecycle histories (development aid; TestVerifC18 runs them too)
+func TestVerifC18Lifecycle(t *testing.T) {
+	out, err := verifh.Open()
+	if err != nil {
+		t.Skip(err)
+	}
+	defer out.Close()
+	c18LifecycleTimelines(out, verifh.NewRand(verifh.Seed()), 32, 6)
 	c18Closing.Wait()
 }
 
@@ -1690,49 +2105,42 @@ func c18ReplayListener(out *verifh.Out, c []int64) {
 			break
 		}
 	}
-	ids := newC18Ids()
 	cl := clock.NewMock()
 	cl.Set(time.Unix(0, c[3]))
-	n := c18StartNode(key, cl)
-	line := []int64{5, c[1], c[2], c[3], 0}
-	sn, _ := c18NodeSnap(ids, cl, n)
-	line = append(line, sn...)
+	x := &c18LcRun{out: out, ids: newC18Ids(), key: key, cl: cl, line: []int64{5, c[1], c[2], c[3]}}
+	x.n = c18NewNode(key, cl)
 	skipSnap := func(i int) int {
 		i += 15
 		i += 1 + 2*int(c[i])
 		i += 1 + 2*int(c[i])
 		return i
 	}
-	i := skipSnap(5)
+	var pend []c18Lc // lifecycle operations on the transport the next event observes
+	i := 4
 	for i < len(c) {
 		switch c[i] {
-		case 1:
-			c18StepNode(cl, n, time.Duration(c[i+1]))
-			sn, _ := c18NodeSnap(ids, cl, n)
-			line = append(line, 1, c[i+1])
-			line = append(line, sn...)
-			i = skipSnap(i + 2)
-		case 2:
-			n.close()
-			n = c18StartNode(key, cl)
-			sn, _ := c18NodeSnap(ids, cl, n)
-			line = append(line, 2)
-			line = append(line, sn...)
+		case 5:
+			pend = append(pend, c18Lc{c[i+1], time.Duration(c[i+2])})
+			i += 3
+		case 0:
+			x.event(0, 0, pend)
+			pend = nil
 			i = skipSnap(i + 1)
-		case 3:
-			n2 := c18StartNode(key, cl)
-			sn, _ := c18NodeSnap(ids, cl, n2)
-			n2.close()
-			line = append(line, 3)
-			line = append(line, sn...)
+		case 1:
+			x.event(1, time.Duration(c[i+1]), pend)
+			pend = nil
+			i = skipSnap(i + 2)
+		case 2, 3:
+			x.event(c[i], 0, pend)
+			pend = nil
 			i = skipSnap(i + 1)
 		default:
 			panic(fmt.Sprintf("bad op %d at %d", c[i], i))
 		}
 	}
-	n.close()
+	x.n.close()
 	c18Closing.Wait()
-	out.Case(line)
+	out.Case(x.line)
 }
 
 var _ = io.EOF
